@@ -458,6 +458,12 @@ def nat_sweep(seed, count):
             elif kind == 2 and M > 3:
                 f[:, 1] = f[:, 2]
             f /= f.sum(axis=1, keepdims=True)
+            if N >= 2 and it % 3 == 1:
+                # consecutive snapshots whose volumes differ in the tenth digit only (a slowly evolving texture), in another order
+                f[1] = f[0] * (1 + 1e-9 * rng.normal(size=M))
+                f[1] /= f[1].sum()
+                if M > 2:
+                    f[1][[0, M - 1]] = f[1][[M - 1, 0]]
             O = rng.normal(size=(N, M, 3, 3))
             O[:, :, 0, 0] = np.arange(M)[None, :]  # identify the grain
             sd = [0, 1, int(rng.integers(1 << 31))][it % 3]
